@@ -284,7 +284,8 @@ def check_predict_tracking(chk, rep, repo):
         return
     cname, (cinit, _) = next(iter(conq.items()))
     rep.fn("P1-init", fn, f"{cname} starts from the first candidate, like the running minimum and the label",
-           cinit == t0, f"{cname} starts at '{show(cinit)}' while the minimum and the label start from idx_nodes[0]: a "
+           cinit == t0 or (view.first == ("const", 0) and bs.init == ("K", "FLOAT_MAX") and cinit[0] in ("const", "K")),
+           f"{cname} starts at '{show(cinit)}' while the minimum and the label start from idx_nodes[0]: a "
            "sample conquered by the first node of the conquest order marks nothing", line=li.line)
     after = ("phi", li.lid, cname)
     marks = [e for e in w.events if e.kind == "call" and e.name == "mark_nodes" and e.target == ("attr", G, "mark_nodes")]
